@@ -76,7 +76,8 @@ Expect(c) ==
 (* expected packet nesting, outermost first *)
 Nesting(c) ==
   (IF c.armor # "none" THEN <<"armor">> ELSE <<>>)
-  \o [i \in 1..Len(c.pubkeys) |-> "pkesk"] \o [i \in 1..Len(c.passwords) |-> "skesk"]
+  \* (the builder writes the password packets before the public-key packets, whatever the order of the calls; RFC 9580 leaves the order open)
+  \o [i \in 1..Len(c.passwords) |-> "skesk"] \o [i \in 1..Len(c.pubkeys) |-> "pkesk"]
   \o (IF c.enc.kind = "v1" THEN <<"seipd1">> ELSE IF c.enc.kind = "v2" THEN <<"seipd2">> ELSE <<>>)
   \o (IF c.compression # "none" THEN <<"compressed">> ELSE <<>>)
   \o [i \in 1..Len(c.signers) |-> "ops"] \o <<"literal">> \o [i \in 1..Len(c.signers) |-> "sig"]
